@@ -25,8 +25,13 @@ RULE = (
 ASSUMPTIONS = [
     "uploads are sequential (jobs=1; dvc_objects uses batch_size=1 for local->local copies); the orders of the "
     "directory loop and of the uploads are observed and passed to the model as oracle arguments",
-    "objects (corrupt ones included) are planted with mode 0o444: a LocalHashFileDB trusts them by mode (re-hashing "
-    "and removing unprotected corrupt objects during status is C07's subject)",
+    "source, cache_odb and base-class stores: objects (corrupt ones included) are planted write-protected (0o444; a "
+    "LocalHashFileDB trusts them by mode, a base-class store only looks at existence). Local-class DESTINATION: an "
+    "unprotected copy (mode != 0o444) whose bytes do not hash to its id is not vouched for and counts as ABSENT at "
+    "the start of a round, because status() re-hashes and removes it (one rule, os.stat + hashlib: "
+    "_transfer_common.effective_store); such copies are only pre-seeded without a destination index and for ids "
+    "the status query covers",
+    "requested HashInfos may carry a descriptive label (obj_name); the harness compares ids by .value only",
     "'right bytes' = the bytes the source stores under the id; 'present' = a regular file at <root>/<2 chars>/<rest> "
     "(lib.impl.walk_store)",
     "'absent afterwards => failed or missing' is judged without a destination index, or with one when the "
@@ -57,6 +62,9 @@ def _register(ctx, S, notes, items):
               + ("+dix" + ("(noop)" if case["dix"] == "noop" else "") if case["dix"] else "")
               + ("+six" + ("(noop)" if case["six"] == "noop" else "") if case["six"] else ""))
     ctx.count("mode:" + ("shallow" if case["shallow"] else "expand") + ("/verify" if case["verify"] else ""))
+    if case.get("labels"):
+        ctx.count("labelled-request")
+    ctx.count("status-phase-removals", sum(len(ob.get("status_drops") or []) for ob in S.rounds))
     ctx.count("rounds", len(S.rounds))
     ctx.count("judged-rounds", sum(1 for ob in S.rounds if ob["outcome"][0] == "ok"))
     for ob in S.rounds:
@@ -81,6 +89,19 @@ def run(ctx):
             n_problems += len(_register(ctx, S, ["corpus"], items))
         finally:
             S.close()
+    # the sharing chain A-f-B-g-C (processing order A,B,C), every requested id labelled, f fails
+    chain, _salt = TC.corpus_chain(ctx, True)
+    if chain is not None:
+        for cls in ("local", "base"):
+            case = copy.deepcopy(chain)
+            case.update({"prop": "C11", "dst_cls": cls, "labels": {t: "chain/" + t for t in chain["req"]},
+                         "rounds": [{"fails": ["f1"], "crash": None, "reset": True},
+                                    {"fails": [], "crash": None, "reset": False}]})
+            S = TC.run_scenario(ctx, case, crash_some=1)
+            try:
+                n_problems += len(_register(ctx, S, ["corpus", "chain", "labels:all"], items))
+            finally:
+                S.close()
     nbase = ctx.n(90, 320)
     per_base = ctx.n(2, 10)
     for _ in range(nbase):
@@ -105,6 +126,10 @@ def run(ctx):
                 case["dix"] = "noop"
             if not case["six"] and ctx.rng.random() < 0.06:
                 case["six"] = True
+            if case["dst_cls"] == "local" and not case["dix"] and ctx.rng.random() < 0.8 \
+                    and TC.add_rot(ctx.rng, case, notes, "C11"):
+                ctx.count("dst-rot")
+                ctx.count("dst-rot:dir-object", sum(1 for t in case["dst_rot"] if t.endswith(".dir")))
             first = {"fails": list(F), "crash": None, "reset": True}
             if F and ctx.rng.random() < 0.35:
                 # a non-atomic remote: the failing upload leaves a truncated object under the final name
